@@ -17,10 +17,12 @@ import (
 	"math/rand"
 	"os"
 	"path/filepath"
+	"sort"
 	"strings"
 	"time"
 
 	"cosmossdk.io/log"
+	storetypes "cosmossdk.io/store/types"
 	abci "github.com/cometbft/cometbft/abci/types"
 	tmproto "github.com/cometbft/cometbft/proto/tendermint/types"
 	dbm "github.com/cosmos/cosmos-db"
@@ -269,6 +271,35 @@ func (n *node) queries(rng *rand.Rand) {
 	}
 }
 
+// storeHashes lists the commit hash (first 4 bytes) of every store after the last commit: when the application hash of two
+// executions differs this names the module stores that diverged.
+func storeHashes(c *detx.Chain) string {
+	type commitInfoer interface {
+		GetCommitInfo(int64) (*storetypes.CommitInfo, error)
+	}
+	ci, ok := c.App.CommitMultiStore().(commitInfoer)
+	if !ok {
+		return "-"
+	}
+	info, err := ci.GetCommitInfo(c.Height)
+	if err != nil || info == nil {
+		return "-"
+	}
+	var parts []string
+	for _, si := range info.StoreInfos {
+		h := si.CommitId.Hash
+		if len(h) > 4 {
+			h = h[:4]
+		}
+		parts = append(parts, fmt.Sprintf("%s:%x", si.Name, h))
+	}
+	sort.Strings(parts)
+	return strings.Join(parts, ",")
+}
+
+// blockLine = obsLine + the per-store commit hashes of the chain that just executed the block.
+func blockLine(c *detx.Chain, o detx.Obs) string { return obsLine(o) + " stores=" + storeHashes(c) }
+
 // obsLine is the compared observation of one block: the detx line plus the gas used by every transaction.
 func obsLine(o detx.Obs) string {
 	gas := make([]string, 0, len(o.TxResults))
@@ -322,7 +353,8 @@ func replayMode(h *detx.History, mode, backend, dir string, rseed int64) ([]stri
 				n.serve(b, next, rng)
 			}
 		}
-		lines = append(lines, obsLine(n.c.RunBlock(b)))
+		o := n.c.RunBlock(b)
+		lines = append(lines, blockLine(n.c, o))
 	}
 	return lines, n.stats, nil
 }
